@@ -68,9 +68,12 @@ def run_dispatch(case):
         behaviours.setdefault((b['cb'], b['packet']), []).append(b)
     funcs = {}
 
+    def _key(r):
+        return (r['cb'], r['port'], r['pmask'], r['channel'], r['cmask'])
+
     def add(reg):
-        if any(r == reg for r in model):
-            return False
+        if any(_key(r) == _key(reg) for r in model):
+            return False      # registrations are distinct (the same one made through the other entry point is the same one)
         f = funcs[reg['cb']]
         if reg['via'] == 'port':
             Crazyflie.add_port_callback(cf, reg['port'], f)
@@ -242,9 +245,13 @@ def _reg(draw):
 
 
 def _uniq(regs):
+    """distinct registrations: (callback, port, port mask, channel, channel mask) - however they were made"""
     outl = []
+    seen = set()
     for r in regs:
-        if r not in outl:
+        key = (r['cb'], r['port'], r['pmask'], r['channel'], r['cmask'])
+        if key not in seen:
+            seen.add(key)
             outl.append(r)
     return outl
 
